@@ -21,7 +21,7 @@ type Row struct {
 	Kind   string    `json:"kind"` // return | emit
 	Tmpl   string    `json:"tmpl"` // template text, or CALL:<callee> / VAR:<name> for non-literal returns
 	Args   []string  `json:"args,omitempty"`
-	Loop   []string  `json:"loop,omitempty"` // enclosing loops (canonical range expressions)
+	Loop   []string  `json:"loop,omitempty"`    // enclosing loops (canonical range expressions)
 	LoopIx []string  `json:"loop_ix,omitempty"` // name of the index variable of each enclosing loop ("" if none)
 	Pos    token.Pos `json:"-"`
 	PosStr string    `json:"pos"`
@@ -47,8 +47,8 @@ type Extractor struct {
 	// explaining locals: a variable defined exactly once (`x := E`, never reassigned, address never
 	// taken) by a side-effect-free expression is rendered as E, so that introducing or removing
 	// such a local does not change the table
-	bind     map[types.Object]ast.Expr
-	binding  map[types.Object]bool // cycle guard
+	bind    map[types.Object]ast.Expr
+	binding map[types.Object]bool // cycle guard
 	// `v, ok := f(args)`: ok object -> the call (rendered as f(args)#ok)
 	callOk map[types.Object]ast.Expr
 	// index variables of `for i := 0; i < len(X); i++` loops: object -> canonical X
